@@ -1067,7 +1067,7 @@ Section Proofs.
      OR it was answered by the local no-op shortcut behind the read barrier at some slot k: then every entry
      below k was committed before the reply, every entry from k on after the invocation, and the reply is the
      specification's reply in the state after k entries, which it leaves unchanged *)
-  Theorem protocol_commit_point : forall g, reachable g ->
+  Theorem Inv_commit_point : forall g, Inv g ->
     forall i h t r, nth_error (g_hist g) i = Some h -> h_ret h = Some (t, r) ->
     (exists p c, nth_error (g_log g) p = Some c /\ cid c = i /\
                  h_inv h < c_time c /\ c_time c < t /\
@@ -1079,7 +1079,7 @@ Section Proofs.
                (forall p c, nth_error (g_log g) p = Some c -> (k <= p)%nat -> h_inv h < c_time c) /\
                (forall p c, nth_error (g_log g) p = Some c -> cid c <> i)).
   Proof.
-    intros g Hr i h t r Hh Hret. pose proof (reachable_Inv g Hr) as Hi.
+    intros g Hi i h t r Hh Hret.
     destruct (I_done g Hi _ _ _ _ Hh Hret) as [[p [c [Hp [Hid [Ht Hres]]]]]|Hl].
     - left. exists p, c. split; [exact Hp|]. split; [exact Hid|]. subst i. split; [eapply I_after; eauto|]. split; [exact Ht|]. split.
       + destruct (I_hist g Hi (c_ent c)) as [h0 [Hh0 Ho]]; [apply in_or_app; left; apply in_map; eapply nth_error_In; eauto|].
@@ -1093,20 +1093,50 @@ Section Proofs.
       + intros p c Hc He. destruct (log_id_not_local g Hi _ _ Hc) as [_ NL]. apply (NL d Hin). symmetry; exact He.
   Qed.
 
+  Definition commit_point_stmt (g : gstate) : Prop :=
+    forall i h t r, nth_error (g_hist g) i = Some h -> h_ret h = Some (t, r) ->
+    (exists p c, nth_error (g_log g) p = Some c /\ cid c = i /\
+                 h_inv h < c_time c /\ c_time c < t /\
+                 r = snd (step (exec (firstn p (g_log g))) (h_op h)) /\
+                 (forall q d, nth_error (g_log g) q = Some d -> cid d = i -> q = p)) \/
+    (exists k, (k <= length (g_log g))%nat /\ h_inv h < t /\
+               step (exec (firstn k (g_log g))) (h_op h) = (exec (firstn k (g_log g)), r) /\
+               (forall p c, nth_error (g_log g) p = Some c -> (p < k)%nat -> c_time c < t) /\
+               (forall p c, nth_error (g_log g) p = Some c -> (k <= p)%nat -> h_inv h < c_time c) /\
+               (forall p c, nth_error (g_log g) p = Some c -> cid c <> i)).
+
+  Theorem protocol_commit_point : forall g, reachable g -> commit_point_stmt g.
+  Proof. intros g Hr. unfold commit_point_stmt. apply Inv_commit_point. apply reachable_Inv, Hr. Qed.
+
   Theorem protocol_at_most_once : forall g, reachable g ->
     forall p q c d, nth_error (g_log g) p = Some c -> nth_error (g_log g) q = Some d -> cid c = cid d -> p = q.
   Proof. intros g Hr. apply log_id_pos. apply reachable_Inv, Hr. Qed.
 
   (* quiescent convergence: replicas that applied the same prefix are in the same state, and a replica that
      applied the whole log holds the state of the witness order, which contains every acknowledged write *)
-  Theorem protocol_convergence : forall g, reachable g ->
+  Definition convergence_stmt (g : gstate) : Prop :=
     (forall r1 r2, r_applied (g_rep g r1) = r_applied (g_rep g r2) -> r_st (g_rep g r1) = r_st (g_rep g r2)) /\
     (forall r, r_applied (g_rep g r) = length (g_log g) -> r_st (g_rep g r) = exec (g_log g)).
+
+  Theorem Inv_convergence : forall g, Inv g -> convergence_stmt g.
   Proof.
-    intros g Hr. pose proof (reachable_Inv g Hr) as Hi. split.
+    intros g Hi. split.
     - intros r1 r2 Heq. destruct (I_rep g Hi r1) as [_ E1]. destruct (I_rep g Hi r2) as [_ E2]. rewrite E1, E2, Heq. reflexivity.
     - intros r Heq. destruct (I_rep g Hi r) as [_ E]. rewrite E, Heq, firstn_all. reflexivity.
   Qed.
+
+  Theorem protocol_convergence : forall g, reachable g -> convergence_stmt g.
+  Proof. intros g Hr. apply Inv_convergence. apply reachable_Inv, Hr. Qed.
+
+  (* t_apply as a function preserves the invariant *)
+  Lemma Inv_apply1 : forall g r, Inv g -> Inv (apply1 apply_impl g r).
+  Proof.
+    intros g r Hi. unfold apply1. destruct (nth_error (g_log g) (r_applied (g_rep g r))) as [c|] eqn:E; [|exact Hi].
+    apply Inv_apply; assumption.
+  Qed.
+
+  Lemma Inv_applyn : forall n g r, Inv g -> Inv (applyn apply_impl n g r).
+  Proof. induction n as [|n IH]; intros g r Hi; simpl; [exact Hi|]. apply IH. apply Inv_apply1; exact Hi. Qed.
 End Proofs.
 
 (* ------------------------------------------------------------------ non-vacuity: concrete runs *)
